@@ -491,7 +491,7 @@ func engTxn(e *Env) {
 	r := NewRng(e.Seed)
 	e.Res.Rule = "two (all interleavings) or three (sampled interleavings) explicit transactions of 1-3 operations (read by docID, update, create, delete; commit or discard) over 2 documents on one real node, probe reads outside after every step; distinct = distinct schedule; non-trivial = two transactions touch a common document"
 	x := newNd(ctx, "T")
-	defer x.close(ctx)
+	defer func() { x.close(ctx) }()
 	x.addSchema(ctx, `type Acct { name: String @index bal: Int }`)
 	nPrograms := 14
 	maxSched := 1500
@@ -534,6 +534,12 @@ func engTxn(e *Env) {
 				break
 			}
 			serial++
+			if serial%400 == 0 {
+				// a fresh node: listings walk the whole collection, which grows with every schedule
+				x.close(ctx)
+				x = newNd(ctx, "T")
+				x.addSchema(ctx, `type Acct { name: String @index bal: Int }`)
+			}
 			concurrent := serial%2 == 0
 			if concurrent {
 				e.count("flavour_concurrent_txn")
